@@ -12,7 +12,7 @@ EXTENDS Assets, Sequences
 
 IsPush(op) == op.op \in {"empty", "from_naked", "from_named", "from_defined",
                          "from_asset", "from_class"}
-IsDerived(op) == op.op \in {"add", "sub", "neg", "roundtrip", "relist"}
+IsDerived(op) == op.op \in {"add", "sub", "neg", "roundtrip", "relist", "ir_sub3", "ir_addsub", "ir_subadd", "ir_negsub"}
 
 Result(regs, op) ==
     CASE op.op = "empty"        -> EmptyVal
@@ -28,6 +28,12 @@ Result(regs, op) ==
       \* the asset-expression lists of two registers, one after the other, read back as one list: a list means the sum
       \* of its entries, also when a class is named more than once
       [] op.op = "relist"       -> VAdd(regs[op.i], regs[op.j])
+      \* two-step computations folded by the IR reducer (built-in add / sub / negate over asset lists): the intermediate
+      \* result never leaves the IR, and the whole means what the value algebra says
+      [] op.op = "ir_sub3"      -> VSub(VSub(regs[op.i], regs[op.j]), regs[op.k])
+      [] op.op = "ir_addsub"    -> VSub(VAdd(regs[op.i], regs[op.j]), regs[op.k])
+      [] op.op = "ir_subadd"    -> VAdd(VSub(regs[op.i], regs[op.j]), regs[op.k])
+      [] op.op = "ir_negsub"    -> VSub(VNeg(regs[op.i]), regs[op.j])
 
 \* every amount of the ideal result is representable by the code (i128)
 Representable(v) == \A c \in DOMAIN v : FitsI128(v[c])
@@ -54,4 +60,8 @@ RepResult(reps, op) ==
       [] op.op = "neg"          -> RepNeg(reps[op.i])
       [] op.op = "roundtrip"    -> RepAdd(RepEmpty, reps[op.i])   \* rebuilt by folding with +
       [] op.op = "relist"       -> RepAdd(RepAdd(RepEmpty, reps[op.i]), reps[op.j])
+      [] op.op = "ir_sub3"      -> RepSub(RepSub(reps[op.i], reps[op.j]), reps[op.k])
+      [] op.op = "ir_addsub"    -> RepSub(RepAdd(reps[op.i], reps[op.j]), reps[op.k])
+      [] op.op = "ir_subadd"    -> RepAdd(RepSub(reps[op.i], reps[op.j]), reps[op.k])
+      [] op.op = "ir_negsub"    -> RepSub(RepNeg(reps[op.i]), reps[op.j])
 =============================================================================
